@@ -263,17 +263,155 @@ func fnv64(s string) uint64 {
 	return h
 }
 
-// VerifyLemma builds the obligation for a stand-alone lemma.
-func VerifyLemma(p *Program, cs *ContractSet, lm *Lemma) (*Obligation, error) {
+// VerifyLemma builds the obligations of a stand-alone lemma.  A scripted lemma is straight-line ghost
+// code: vars (universally quantified inputs), call (a function under contract: its requires and
+// ensures are assumed for fresh results - the ensures are proved separately against the body),
+// assume, show.
+func VerifyLemma(p *Program, cs *ContractSet, lm *Lemma) ([]*Obligation, []string, error) {
 	u := newUnivFor(p, cs)
 	env := &Env{u: u, vars: map[string]TV{}, bound: map[string]string{}, lets: map[string]*Expr{}}
-	tv, err := env.Translate(lm.E, "Bool")
-	if err != nil {
-		return nil, err
+	var used []string
+	if lm.E != nil {
+		tv, err := env.Translate(lm.E, "Bool")
+		if err != nil {
+			return nil, nil, err
+		}
+		o := &Obligation{Name: "lemma:" + lm.Name, Kind: "lemma", Props: lm.Props, Query: "(assert " + not(tv.T) + ")\n", Clause: lm.Text, Where: lm.File}
+		o.Decls = u.Decls()
+		return []*Obligation{o}, nil, nil
 	}
-	o := &Obligation{Name: "lemma:" + lm.Name, Kind: "lemma", Props: lm.Props, Query: "(assert " + not(tv.T) + ")\n", Clause: lm.Text, Where: lm.File}
-	o.Decls = u.Decls()
-	return o, nil
+	var pc []string
+	var obls []*Obligation
+	nshow := 0
+	for _, st := range lm.Steps {
+		switch st.Kind {
+		case "vars":
+			for _, v := range st.Vars {
+				s, lo, hi := func() (a, b, c string) {
+					defer func() {
+						if r := recover(); r != nil {
+							a = ""
+						}
+					}()
+					return u.sortFromTypeName(v.Type)
+				}()
+				if s == "" {
+					return nil, nil, fmt.Errorf("lemma %s: unknown type %s", lm.Name, v.Type)
+				}
+				c := u.Const("lv."+v.Name, s)
+				env.vars[v.Name] = TV{c, s}
+				if lo != "" {
+					pc = append(pc, "(<= "+lo+" "+c+")")
+				}
+				if hi != "" {
+					pc = append(pc, "(<= "+c+" "+hi+")")
+				}
+				if v.Type == "Addr" || v.Type == "Bytes" {
+					pc = append(pc, fmt.Sprintf("(>= (sl.len %s) 0)", c))
+					pc = append(pc, fmt.Sprintf("(forall ((i!w Int)) (! (and (<= 0 (select (sl.arr %s) i!w)) (<= (select (sl.arr %s) i!w) 255)) :pattern ((select (sl.arr %s) i!w))))", c, c, c))
+				}
+			}
+		case "assume":
+			tv, err := env.Translate(st.E, "Bool")
+			if err != nil {
+				return nil, nil, fmt.Errorf("lemma %s: %v", lm.Name, err)
+			}
+			pc = append(pc, tv.T)
+		case "show":
+			tv, err := env.Translate(st.E, "Bool")
+			if err != nil {
+				return nil, nil, fmt.Errorf("lemma %s: %v", lm.Name, err)
+			}
+			var b strings.Builder
+			for _, a := range pc {
+				b.WriteString("(assert " + a + ")\n")
+			}
+			b.WriteString("(assert " + not(tv.T) + ")\n")
+			name := "lemma:" + lm.Name
+			if nshow > 0 {
+				name = fmt.Sprintf("lemma:%s.%d", lm.Name, nshow)
+			}
+			nshow++
+			obls = append(obls, &Obligation{Name: name, Kind: "lemma", Props: lm.Props, Query: b.String(), Clause: st.Text, Where: fmt.Sprintf("%s:%d", lm.File, st.Line)})
+			pc = append(pc, tv.T)
+		case "call":
+			key := resolveCallee(cs, lm.Pkg, st.Callee)
+			ct := cs.ByKey[key]
+			if ct == nil {
+				return nil, nil, fmt.Errorf("lemma %s: no contract for %s", lm.Name, st.Callee)
+			}
+			fn := p.FindFunc(key)
+			if fn == nil {
+				return nil, nil, fmt.Errorf("lemma %s: function %s not found", lm.Name, key)
+			}
+			used = append(used, key)
+			exn := &Exec{prog: p, u: u, cs: cs, fn: fn, ct: ct}
+			names := exn.paramNames(fn, ct)
+			if len(names) != len(st.Args) {
+				return nil, nil, fmt.Errorf("lemma %s: %s takes %d arguments", lm.Name, st.Callee, len(names))
+			}
+			cenv := &Env{u: u, vars: map[string]TV{}, bound: map[string]string{}, lets: map[string]*Expr{}}
+			for _, l := range ct.Lets {
+				cenv.lets[l.Name] = l.E
+			}
+			for i, a := range st.Args {
+				want := u.SortOf(fn.Params[i].Type())
+				tv, err := env.Translate(a, want)
+				if err != nil {
+					return nil, nil, fmt.Errorf("lemma %s: %v", lm.Name, err)
+				}
+				if tv.S != want {
+					return nil, nil, fmt.Errorf("lemma %s: argument %d of %s has sort %s, want %s", lm.Name, i+1, st.Callee, tv.S, want)
+				}
+				cenv.vars[names[i]] = tv
+				pc = append(pc, u.WellTyped(fn.Params[i].Type(), tv.T, 0))
+			}
+			cenv.old = cenv
+			for _, rq := range ct.Requires {
+				tv, err := cenv.Translate(rq.E, "Bool")
+				if err != nil {
+					return nil, nil, fmt.Errorf("lemma %s: %v", lm.Name, err)
+				}
+				pc = append(pc, tv.T)
+			}
+			rn := resultNames(fn.Signature, ct)
+			if len(rn) != len(st.Results) {
+				return nil, nil, fmt.Errorf("lemma %s: %s has %d results", lm.Name, st.Callee, len(rn))
+			}
+			for i, r := range st.Results {
+				rt := fn.Signature.Results().At(i).Type()
+				s := u.SortOf(rt)
+				c := u.Const("lv."+r, s)
+				env.vars[r] = TV{c, s}
+				cenv.vars[rn[i]] = TV{c, s}
+				pc = append(pc, u.WellTyped(rt, c, 0))
+			}
+			for _, en := range ct.Ensures {
+				tv, err := cenv.Translate(en.E, "Bool")
+				if err != nil {
+					return nil, nil, fmt.Errorf("lemma %s: %v", lm.Name, err)
+				}
+				pc = append(pc, tv.T)
+			}
+		}
+	}
+	d := u.Decls()
+	for _, o := range obls {
+		o.Decls = d
+	}
+	return obls, used, nil
+}
+
+func resolveCallee(cs *ContractSet, pkg, name string) string {
+	if _, ok := cs.ByKey[pkg+"."+name]; ok {
+		return pkg + "." + name
+	}
+	for k := range cs.ByKey {
+		if strings.HasSuffix(k, "."+name) && strings.HasPrefix(k, pkg) {
+			return k
+		}
+	}
+	return pkg + "." + name
 }
 
 // SolveAll discharges obligations in parallel.
